@@ -58,3 +58,40 @@ Definition tk alg kid pobj claims sig :=
 Definition jk kid alg mat cert := {| k_kid := kid; k_alg := alg; k_mat := mat; k_cert := cert |}.
 Definition cs cf keys now cred o attrs :=
   {| c_cf := cf; c_keys := keys; c_now := now; c_cred := cred; c_obs := o; c_attrs_ok := attrs |}.
+
+(* ------------------------------------------------------------------ second stream: histories with the JWK cache *)
+From HV Require Export C05.Cache C05.CacheProofs.
+
+Record hstep := { h_step : kstep; h_obs : obs; h_attrs : bool }.
+Record hcase := { hc_steps : list hstep }.
+
+Definition is_some {A} (o : option A) : bool := match o with Some _ => true | None => false end.
+
+(** the property on the implementation's answers (theorem C05_cache_history_spec): a subject only if the
+    specification accepts the token against what is or was published at its own rendered key-set URL (now,
+    if the request cannot be served from the cache), with that subject and the sent payload as attributes;
+    an error only if the specification rejects it in at least one of those worlds *)
+Fixpoint prop_steps (pre : list kstep) (l : list hstep) : bool :=
+  match l with
+  | [] => true
+  | x :: r =>
+    let s := h_step x in
+    let ws := if fresh s then [s_env s] else worlds pre s in
+    match h_obs x with
+    | OSubject sub => existsb (fun env => option_eqb String.eqb (spec_in s env) (Some sub)) ws && h_attrs x
+    | OError _ => negb (forallb (fun env => is_some (spec_in s env)) ws)
+    end && prop_steps (pre ++ [s]) r
+  end.
+
+Definition check_hist (f1 f2 : bool) (c : hcase) : verdict :=
+  let steps := map h_step (hc_steps c) in
+  {| v_corr := list_eqb obs_eqb (map obs_of (run_history f1 f2 steps)) (map h_obs (hc_steps c));
+     v_prop := prop_steps [] (hc_steps c);
+     v_guards := guards [(1%Z, existsb (fun s => guard_F1 (s_cred s)) steps && negb f1);
+                         (2%Z, existsb (fun s => guard_F2 (s_cred s)) steps && negb f2);
+                         (3%Z, existsb (fun s => guard_F3 (s_cred s)) steps && f1)] |}.
+
+Definition hs cf con tpl env now cred o attrs :=
+  {| h_step := {| s_cf := cf; s_cache_on := con; s_templated := tpl; s_env := env; s_now := secs now; s_cred := cred |};
+     h_obs := o; h_attrs := attrs |}.
+Definition hc steps := {| hc_steps := steps |}.
